@@ -74,6 +74,13 @@ func c15Main(r *run.Runner) {
 		})
 	}
 	corpus := c15Corpus()
+	wides := wideTexts(r.Thorough())
+	r.Sweep("wide-sources", int64(len(wides)), func(w *run.Worker, item int64) {
+		a, b := wides[item], wides[(item+7)%int64(len(wides))]
+		c15One(w, a)
+		c15One(w, a+";"+b)
+		c15One(w, "let x = ';'; "+a+"; // ;\n"+b+";")
+	})
 	r.Sweep("semicolon-insertion", int64(len(corpus)), func(w *run.Worker, item int64) {
 		p := corpus[item]
 		for off := 0; off <= len(p); off++ {
